@@ -88,7 +88,7 @@ func plainEnds(s string) bool {
 
 func runC15(ctx *Ctx) error {
 	r, res := ctx.Rng, ctx.Res
-	res.Rule = "on loopback TCP: (A) DialContext against this package's Listen/Accept for callsigns and passwords from three families (callsign-like, printable ASCII incl. inner spaces, arbitrary bytes without CR), both sides writing a payload immediately after login; (B) the library client against a scripted server that splits prompts at random places, sends banner and blank lines, garbage lines without the keywords, and coalesces the payload with the password prompt or sends everything in one write; (C) the library server against a scripted client that sends callsign, password and payload in one write or in random pieces; every observation compared with the model (what each side sent, what was left for Read) and judged by the property (RemoteCall = the dialler's callsign, payloads byte-exact and complete); (D) DialContext / DialTimeout / DialURL(dial_timeout) against servers that stay silent, send half a prompt, send garbage lines periodically, close at once or close after the first prompt: the call must return an error no later than its deadline (+400 ms tolerance for scheduling), and a context cancelled without deadline ends the dial as well. Non-trivial: scenario with a payload of at least one byte in each direction; distinct by scenario parameters."
+	res.Rule = "on loopback TCP: (A) DialContext against this package's Listen/Accept for callsigns and passwords from three families (callsign-like, printable ASCII incl. inner spaces, arbitrary bytes without CR), both sides writing a payload immediately after login; (B) the library client against a scripted server that splits prompts at random places, sends banner and blank lines, garbage lines without the keywords, and coalesces the payload with the password prompt or sends everything in one write; (C) the library server against a scripted client that sends callsign, password and payload in one write or in random pieces; every observation compared with the model (what each side sent, what was left for Read) and judged by the property (RemoteCall = the dialler's callsign, payloads byte-exact and complete); (D) DialContext / DialTimeout / DialURL(dial_timeout) against servers that stay silent, send half a prompt, send garbage lines periodically, close at once or close after the first prompt: the call must return an error no later than its deadline (+1.5 s tolerance for scheduling on a loaded machine), and a context cancelled without deadline ends the dial as well. Non-trivial: scenario with a payload of at least one byte in each direction; distinct by scenario parameters."
 	if !ardLoopbackOK() {
 		res.Fail(Failure{Kind: "broken", Site: "environment", Detail: "loopback TCP is not available: the telnet package cannot be exercised"})
 		return nil
@@ -444,13 +444,13 @@ func runC15(ctx *Ctx) error {
 			if o.err == nil {
 				res.Fail(Failure{Kind: "oracle", Site: "dial-deadline", Case: desc, Impl: "the dial reported success although the server never sent the password prompt"})
 				o.c.Close()
-			} else if (beh != "close-at-once" && beh != "close-after-prompt") && o.elapsed > limit+400*time.Millisecond {
+			} else if (beh != "close-at-once" && beh != "close-after-prompt") && o.elapsed > limit+1500*time.Millisecond {
 				res.Fail(Failure{Kind: "oracle", Site: "dial-deadline", Case: desc, Impl: fmt.Sprintf("the dial returned after %v, its limit was %v", o.elapsed, limit)})
-			} else if (beh == "close-at-once" || beh == "close-after-prompt") && o.elapsed > limit+400*time.Millisecond {
+			} else if (beh == "close-at-once" || beh == "close-after-prompt") && o.elapsed > limit+1500*time.Millisecond {
 				res.Fail(Failure{Kind: "oracle", Site: "dial-deadline", Case: desc, Impl: fmt.Sprintf("the dial returned after %v although the server closed the connection", o.elapsed)})
 			}
-		case <-time.After(limit + 2500*time.Millisecond):
-			res.Fail(Failure{Kind: "oracle", Site: "dial-deadline", Case: desc, Impl: fmt.Sprintf("the dial had not returned 2.5 s after its limit of %v", limit)})
+		case <-time.After(limit + 4000*time.Millisecond):
+			res.Fail(Failure{Kind: "oracle", Site: "dial-deadline", Case: desc, Impl: fmt.Sprintf("the dial had not returned 4 s after its limit of %v", limit)})
 		}
 		close(stop)
 		ln.Close()
